@@ -59,7 +59,12 @@ def run_property(ctx: core.Ctx, prop: str, cfg_fn: Callable, falsify: Callable, 
             cfg, rows, init, ops, meta = gen_mgr_case(rng, ctx, cfg_fn, collapse_ops=collapse_ops)
         ctx.count("eval_falsifier")
         falsify(ctx, cfg, rows, init, ops, meta)
-        term, states, err = mgrcorr.case_term(cfg, init, ops, rng)
+        try:
+            term, states, err = mgrcorr.case_term(cfg, init, ops, rng)
+        except Exception as e:  # noqa - the implementation's state cannot be written down as a model term
+            ctx.corr_disagreements.append({"relation": "check_mgr: the implementation's state is outside what the model can express "
+                                                       f"({type(e).__name__}: {e})", "cfg": cfg, "init": init, "ops": ops, "meta": meta})
+            continue
         terms.append(term)
         metas.append((cfg, init, ops, meta))
         ctx.count("eval_correspondence")
